@@ -657,6 +657,9 @@ func Readable(t *Type, v V) bool {
 			if !Readable(f.Type, fv) {
 				return false
 			}
+			if t.Struct.Kind == "union" && f.HasDef && Equal(Normalise(f.Type, fv), Normalise(f.Type, f.Default)) {
+				return false // a member holding its declared default counts as unset: no member is set
+			}
 		}
 		if t.Struct.Kind == "union" && n != 1 {
 			return false
